@@ -52,6 +52,19 @@ func (r *replayer) cleanup() {
 	}
 }
 
+// childMainTmpl: in package main the test binary doubles as the program: re-executed with
+// VERIF_CHILD_MAIN=1 it runs the real main() with the given arguments (verifMain, natively).
+const childMainTmpl = `
+func TestVerifChildMain(t *testing.T) {
+	if os.Getenv("VERIF_CHILD_MAIN") != "1" {
+		return
+	}
+	os.Args = verifChildArgs()
+	main()
+	os.Exit(0)
+}
+`
+
 const driverTmpl = `package PKG
 
 import (
@@ -192,6 +205,9 @@ func (r *replayer) overlayFor(rel string) (string, error) {
 		fmt.Fprintf(&tbl, "\t%q: %s,\n", h, h)
 	}
 	drv := strings.Replace(strings.Replace(driverTmpl, "package PKG", "package "+pkgName, 1), "TABLE", tbl.String(), 1)
+	if pkgName == "main" {
+		drv += childMainTmpl
+	}
 	drvReal := filepath.Join(r.dir, "driver_"+strings.ReplaceAll(rel, "/", "_")+"_test.go")
 	if err := os.WriteFile(drvReal, []byte(drv), 0o644); err != nil {
 		return "", err
